@@ -273,9 +273,8 @@ func c03Property(t *rapid.T) {
 	sent := map[int]*sentRec{}
 	record := func(st rig.StepResult, shape string) {
 		for _, e := range s.r.Outs(st) {
-			if e.PossDup {
-				continue
-			}
+			// (no ResendRequest has been received yet: whatever leaves is a first transmission, also
+			// when the application itself flagged it as a possible duplicate)
 			sent[e.Seq] = &sentRec{seq: e.Seq, raw: e.Raw, fs: e.Fields, isApp: !fixwire.IsAdminMsgType(e.MsgType), shape: shape}
 		}
 	}
@@ -308,6 +307,14 @@ func c03Property(t *rapid.T) {
 			shapes["store-refreshed-mid-history"] = true
 		case "app":
 			m, shape := genAppMessage(t, s, useDict, "C"+strconv.Itoa(i))
+			if rapid.IntRange(0, 5).Draw(t, "application-flags-possdup") == 0 {
+				// a hub passing on what it may have passed on before: the application sets
+				// PossDupFlag and the upstream OrigSendingTime itself. The replay's OrigSendingTime
+				// is still the SendingTime of this session's original transmission
+				m.Header.SetBool(43, true)
+				m.Header.SetString(122, "20200102-03:04:05.678")
+				shapes["sent-with-possdup-set-by-the-application"] = true
+			}
 			st, err := s.r.Send(m)
 			if err != nil {
 				t.Fatalf("harness: send failed: %v", err)
